@@ -5,6 +5,7 @@ package zzverif
 // accepted arity × {input, each argument position} × three deliveries of empty.
 
 import (
+	"strconv"
 	"fmt"
 	"strings"
 	"sync"
@@ -23,7 +24,14 @@ type c07Case struct {
 	Other string `json:"other"`          // the well-typed partner operand (operators)
 	Recv  string `json:"recv,omitempty"` // fn: another receiver for which the well-typed call evaluates to a value
 	Multi int    `json:"multi,omitempty"` // fn: the other argument positions hold collections of this many items of their kind
+	// Odd: (empty input only) the literal arguments are well-typed but unusable values - a string
+	// that is no regular expression / no unit / no type name, an integer at a boundary; the empty
+	// input decides before any argument is looked at
+	Odd int `json:"odd,omitempty"`
 }
+
+var c07OddStr = []string{"", "'['", "'*'", "'a{2,1}'", "''"}
+var c07OddInt = []string{"", "-1", "2147483647", "0", "-1"}
 
 var c07Empties = []string{"{}", "Patient.photo", "%none", "%nilcoll"}
 
@@ -71,6 +79,11 @@ func c07Enum(yield func(c07Case)) {
 			for n := f.Min; n <= f.Max; n++ {
 				for pos := -1; pos < n; pos++ {
 					yield(c07Case{Kind: "fn", Name: f.Name, N: n, Pos: pos, Empty: e})
+					if pos == -1 && n >= 1 {
+						for odd := 1; odd <= 4; odd++ {
+							yield(c07Case{Kind: "fn", Name: f.Name, N: n, Pos: pos, Empty: e, Odd: odd})
+						}
+					}
 					if pos >= 0 && n >= 2 {
 						// the empty argument decides, whatever the other arguments are: also next to multi-item ones
 						for _, k := range []int{2, 3, 4} {
@@ -137,6 +150,15 @@ func c07Source(c c07Case) string {
 				args[i] = fmt.Sprintf("%%strs.take(%d)", c.Multi)
 			} else {
 				args[i] = fmt.Sprintf("%%ints.take(%d)", c.Multi)
+			}
+		}
+	}
+	if c.Odd > 0 {
+		for i := range args {
+			if strings.HasPrefix(args[i], "'") {
+				args[i] = c07OddStr[c.Odd]
+			} else if _, err := strconv.Atoi(args[i]); err == nil {
+				args[i] = c07OddInt[c.Odd]
 			}
 		}
 	}
